@@ -321,3 +321,33 @@ Example ex_round_leave :
   leave_legal ex_round_state (fun _ => true) ["b"] false = false /\
   leave_run ex_round_state (fun _ => false) (values (c_nodes ex_round_state)) = ([], ["b"; "e"], true).
 Proof. vm_compute. repeat split. Qed.
+
+(* the checker is tight: every destination list it accepts is what gossipRound sends for some pair of random numbers (with
+   the peers listed in the model's own order) *)
+Lemma addr_pickable (l : list node_state) a :
+  In a (map n_addr l) -> exists r, option_map n_addr (pick l r) = Some a.
+Proof.
+  intros H. apply in_map_iff in H. destruct H as (p & <- & Hp).
+  destruct (pick_reaches l p Hp) as (i & Hi & Hpick). exists i.
+  rewrite (Hpick i (Nat.mod_small _ _ Hi)). reflexivity.
+Qed.
+
+Lemma round_legal_complete c dsts :
+  round_legal c dsts = true ->
+  exists r1 r2, map n_addr (round_targets (live_peers c) (unreach_peers c) r1 r2) = dsts.
+Proof.
+  unfold round_legal, round_targets.
+  destruct (live_peers c) as [|l0 lr] eqn:EL; destruct (unreach_peers c) as [|u0 ur] eqn:EU; cbn [map].
+  - destruct dsts; [|discriminate]. intros _. exists 0, 0. reflexivity.
+  - destruct dsts as [|u [|? ?]]; try discriminate. intros H. apply mem_str_In in H.
+    destruct (addr_pickable (u0 :: ur) u H) as (r2 & Hr2). exists 0, r2.
+    rewrite pick_nil. cbn [app]. destruct (pick (u0 :: ur) r2); [|discriminate]. cbn in Hr2. inversion Hr2. reflexivity.
+  - destruct dsts as [|a [|? ?]]; try discriminate. intros H. apply mem_str_In in H.
+    destruct (addr_pickable (l0 :: lr) a H) as (r1 & Hr1). exists r1, 0.
+    rewrite pick_nil. destruct (pick (l0 :: lr) r1); [|discriminate]. cbn in Hr1. inversion Hr1. reflexivity.
+  - destruct dsts as [|a [|u [|? ?]]]; try discriminate. intros H. apply andb_true_iff in H. destruct H as [Ha Hu].
+    apply mem_str_In in Ha, Hu.
+    destruct (addr_pickable (l0 :: lr) a Ha) as (r1 & Hr1). destruct (addr_pickable (u0 :: ur) u Hu) as (r2 & Hr2).
+    exists r1, r2. destruct (pick (l0 :: lr) r1); [|discriminate]. destruct (pick (u0 :: ur) r2); [|discriminate].
+    cbn in Hr1, Hr2. inversion Hr1. inversion Hr2. reflexivity.
+Qed.
